@@ -639,11 +639,27 @@ fn print_sheet(rng: &mut Rng, rules: &[Rule], style: usize) -> String {
     };
     for r in rules {
         if style > 0 && rng.chance(1, 4) {
-            o.push_str(*rng.pick(&["@import url(x);", "@media print { p { color: red; } }", "@charset \"utf-8\";", "@font-face { font-family: x; }"]));
+            o.push_str(*rng.pick(&[
+                "@import url(x);",
+                "@media print { p { color: red; } }",
+                "@charset \"utf-8\";",
+                "@font-face { font-family: x; }",
+                "@media (max-width: 600px) { a:hover { color: #123456 } }",
+                "@media screen and (min-width:1px) { p { color: #123456 } em { color: #123456 } }",
+                "@unknown (x) span { color: #123456 }",
+                "@supports (display: grid) { p { color: #123456 } }",
+            ]));
             o.push_str(&ws(rng));
         }
         if style > 0 && rng.chance(1, 6) {
-            o.push_str(*rng.pick(&["p[x=y] { color: blue; }", "a:hover { color: red; }", "p::first-line { color: red; }"]));
+            o.push_str(*rng.pick(&[
+                "p[x=y] { color: blue; }",
+                "a:hover { color: red; }",
+                "p::first-line { color: red; }",
+                "a[href] span { color: #123456 }",
+                "li:not(.z) em { background-color: #123456 }",
+                "p + p, em[title] p { color: #123456; }",
+            ]));
             o.push_str(&ws(rng));
         }
         o.push_str(&ws(rng));
@@ -667,11 +683,18 @@ fn print_sheet(rng: &mut Rng, rules: &[Rule], style: usize) -> String {
                 o.push_str(if style > 0 && rng.chance(1, 2) { " ! important" } else { " !important" });
             }
             let last = k + 1 == r.decls.len();
+            if style > 0 && rng.chance(1, 3) {
+                // whitespace (or a comment) between the value and the semicolon / closing brace
+                o.push_str(&ws(rng));
+            }
             if !last || style == 0 {
                 o.push(';');
             } else {
-                if rng.chance(1, 2) {
-                    o.push(';');
+                // the final semicolon: dropped, kept or doubled
+                match rng.below(4) {
+                    0 => {}
+                    1 => o.push_str(";;"),
+                    _ => o.push(';'),
                 }
             }
         }
